@@ -213,6 +213,19 @@ def main(argv):
                 run_sequence(ctx, kind, classes, seq, rng, model_lines if kind in ("Client", "ClientDnr", "ClientIgn", "ClientUtf8") else None, model_meta)
                 ctx.case(("special", kind, ci, chunkmode))
                 ctx.count("double-spelled keys / text values")
+    # raw_command with the caller's own end token and a reply of several lines (a `stats` dump read up to END): the whole reply belongs to that call,
+    # on every class that offers raw_command (HashClient does not); healthy replies in every segmentation, and recv faults inside the reply
+    rawmulti = [{"op": "raw", "cmd": b"stats", "tok": b"END\r\n"}, {"op": "raw", "cmd": b"get a", "tok": b"END\r\n"}, {"op": "raw", "cmd": b"stats settings", "tok": b"END\r\n"},
+                {"op": "raw", "cmd": b"gets a b", "tok": b"END\r\n"}]
+    for kind in ("Client", "ClientDnr", "ClientIgn", "Pooled", "PooledDnr", "ClientUnix", "ClientPfx", "PooledPfx"):
+        for ci, call in enumerate(rawmulti):
+            for script in ({"chunk": "bytes"}, {"chunk": "rand"}, {"chunk": "one"}, {"recv_fault": (3, "timeout"), "chunk": "rand"}, {"recv_fault": (1, "eof"), "chunk": "bytes"},
+                           {"recv_fault": (2, "kbd"), "chunk": "rand"}):
+                seq = [({"op": "set", "k": "a", "v": b"7", "nr": False}, {}), (call, script), (followups[ci % len(followups)], {"chunk": "rand"}),
+                       ({"op": "delete", "k": "a", "nr": False}, {}), ({"op": "version"}, {})]
+                run_sequence(ctx, kind, classes, seq, rng, model_lines if kind in ("Client", "ClientDnr", "ClientIgn") else None, model_meta)
+                ctx.case(("raw-own-token", kind, ci, repr(script)))
+                ctx.count("raw_command with its own end token")
     # random sequences with several scripted calls
     for _ in range(20000 if ctx.thorough else 1500):
         kind = rng.choice(kinds)
